@@ -194,3 +194,14 @@ func (c *scriptedSaslClient) Next(challenge []byte) ([]byte, error) {
 	}
 	return c.plan.Steps[i].Resp, nil
 }
+
+// logoutLocked is connLocked for the one place where the race-detector build probes
+// the mutex too: a Logout is the last thing that happens to a session, so the one
+// synchronisation the probe adds orders nothing the detector still has to judge on
+// that session, and a slow Logout is worth exploring there as well.
+func logoutLocked(sc *SimConn) bool {
+	if sc != nil && sc.owner != nil {
+		return heldByCaller(sc.owner)
+	}
+	return underConnLock()
+}
